@@ -12,10 +12,12 @@ def main(tier: str) -> int:
     M = "h_C10"
     T = 600 if tier == "quick" else 3000
     conds = [Cond(M, f, T, 120, dict(C10_K="2")) for f in ("limiter_state_does_not_leak", "limiter_arbitrary_prestate", "unique_names_do_not_leak")]
+    conds.append(Cond(M, "earlier_run_with_other_options_does_not_matter", max(T, 900), 600))
+    conds.append(Cond(M, "earlier_run_over_another_tree_does_not_matter", max(T, 900), 600))
     masks = (1, 2, 4, 7) if tier == "quick" else range(1, 8)
     for m in masks:
         conds.append(Cond(M, "subset_and_order_do_not_matter", max(T, 900), 600, dict(C10_MASK=str(m))))
-    rep.bounds = dict(previous_file="any text of <= 2 characters over {a, LF}", file_under_test="2 chunks x <= 2 characters", limiter_counter="0..3", N="0..1",
+    rep.bounds = dict(generator_reuse="one generator, two runs, both valuations of omit_serialization_support each (type vt.A)", previous_file="any text of <= 2 characters over {a, LF}", file_under_test="2 chunks x <= 2 characters", limiter_counter="0..3", N="0..1",
                       name_generator_prestate="absent / same token / other token with any index 0..1000",
                       subsets=("{A}, {B}, {C}, {A,B,C}" if tier == "quick" else "all 7 non-empty subsets") + " of the 3 types of /verif/data/ns1, every rotation and reversal")
     rep.assumptions = ["process state an earlier file/run can leave behind = the line post-processors' instance state and the UniqueNameGenerator singleton "
